@@ -150,6 +150,9 @@ pub fn judge_binary(desc: &CaseDesc, c: Compression) -> (String, Vec<(String, St
         }
         Outcome::Ok { forest, .. } => {
             let expected = expected_for(&plan, Codec::Binary, XmlMode::Default, FloatMode::Exact);
+            if std::env::var("VERIF_DEBUG").is_ok() {
+                println!("expected: {:?}\nread back: {:?}", expected, forest);
+            }
             let gain = binary_gain_rule(&plan, FloatMode::Exact);
             let diffs = diff_forest(&expected, &forest, &gain);
             if !diffs.is_empty() {
@@ -387,6 +390,7 @@ pub fn replay_bin(case: &Value) -> Vec<(String, String)> {
         .unwrap_or_else(|e| crate::evidence::machinery_failure(&format!("bad replay: {}", e)));
     let a = judge_binary(&r.desc, r.compression);
     let b = judge_binary(&r.desc, r.compression);
+    println!("outcome: {}", a.0);
     if a.1 != b.1 {
         crate::evidence::machinery_failure("replay gave two different observations");
     }
